@@ -1808,13 +1808,13 @@ fintEvalBCall(DataObj retDataObj)
 
 	case FOAM_BVal_CharIsDigit:
 		(void)fintEval(&expr1);
-		retDataObj->fiBool = (FiBool) isdigit(expr1.fiChar);
+		retDataObj->fiBool = (FiBool) (isdigit(expr1.fiChar) != 0);
 		myType = FOAM_Bool;
 		break;
 
 	case FOAM_BVal_CharIsLetter:
 		(void)fintEval(&expr1);
-		retDataObj->fiBool = (FiBool) isalpha(expr1.fiChar);
+		retDataObj->fiBool = (FiBool) (isalpha(expr1.fiChar) != 0);
 		myType = FOAM_Bool;
 		break;
 
